@@ -56,6 +56,10 @@ class PtVerifCCompiler(CCompiler):
 
     def build(self, name: str, code: str, *args: Any, **kwargs: Any) -> Any:
         code = code.replace("static inline static int", "static inline int")
+        # a translation unit with callee kernels (LoopyCall) is built once per
+        # device program from the SAME source; codepy's cache is keyed by the
+        # source checksum and then looks for <name>.so -> make the text unique
+        code += f"\n/* built as {name} */\n"
         return super().build(name, code, *args, **kwargs)
 
 
@@ -69,6 +73,40 @@ class PtVerifCTarget(ExecutableCTarget):
 
     def get_device_ast_builder(self) -> Any:
         return PtVerifASTBuilder(self)
+
+    def get_kernel_executor(self, t_unit: Any, *args: Any, entrypoint: Any,
+                            **kwargs: Any) -> Any:
+        return _executor_class()(t_unit, entrypoint=entrypoint, compiler=self.compiler)
+
+
+def _executor_class() -> Any:
+    """loopy's CExecutor loads one ctypes function per *device program* and its
+    invoker calls every one of them with the entrypoint's arguments; callee
+    kernels (LoopyCall) are `static` functions of the same source, so that
+    cannot work.  Only the entrypoint's device program is loaded here."""
+    from loopy.target.c.c_execution import CExecutor, CompiledCKernel, _KernelInfo
+    from pytools import memoize_method
+
+    class PtVerifCExecutor(CExecutor):
+        @memoize_method
+        def translation_unit_info(self, arg_to_dtype: Any = None) -> Any:
+            t_unit = self.get_typed_and_scheduled_translation_unit(arg_to_dtype)
+            from loopy.codegen import generate_code_v2
+            from loopy.schedule.tools import get_kernel_arg_info
+            codegen_result = generate_code_v2(t_unit)
+            all_code = "\n".join([codegen_result.device_code(), "",
+                                  codegen_result.host_code()])
+            kai = get_kernel_arg_info(t_unit[self.entrypoint])
+            c_kernels = [CompiledCKernel(t_unit[self.entrypoint], dp, kai.passed_names,
+                                         all_code, self.compiler)
+                         for dp in codegen_result.device_programs
+                         if dp.name == self.entrypoint]
+            if len(c_kernels) != 1:
+                raise RuntimeError(f"no unique device program for {self.entrypoint}")
+            return _KernelInfo(t_unit=t_unit, c_kernels=c_kernels,
+                               invoker=self.get_invoker(t_unit, self.entrypoint,
+                                                        codegen_result))
+    return PtVerifCExecutor
 
 
 def _make_target() -> Any:
